@@ -315,6 +315,10 @@ var detPerturb bool
 var detReuseEval bool
 var detLastEval *eval.Eval
 
+// ... and with the configuration OBJECT of the previous repetition (cmd/srsim and the server mode hand one
+// *model.SimConfig to every iteration): a run must not leave anything behind in it
+var detLastCfg *model.SimConfig
+
 func detOnce1(in term.T) (rep detRep) {
 	detMu.Lock()
 	defer detMu.Unlock()
@@ -374,8 +378,12 @@ func detOnce1(in term.T) (rep detRep) {
 	ev := eval.New(context.Background(), al.Program)
 	if detReuseEval && detLastEval != nil && !detPerturb {
 		ev = detLastEval
+		if detLastCfg != nil {
+			cfg = detLastCfg
+		}
 	} else if !detPerturb {
 		detLastEval = ev
+		detLastCfg = cfg
 	}
 	res, err := simulation.Run(&simulation.RunOpts{
 		Config: cfg, Eval: ev, Seed: seed, Loggers: []logging.Logger{lg},
@@ -521,7 +529,7 @@ func runDet(in term.T) term.T {
 		reps[i] = detOnce1(in)
 		detReuseEval = false
 	}
-	detLastEval = nil
+	detLastEval, detLastCfg = nil, nil
 	wg.Wait()
 	flags, hashes := []term.T{}, []term.T{term.S(reps[0].hash())}
 	diff := ""
@@ -745,7 +753,7 @@ func genDetOne(r *term.Rng, idx int) term.T {
 		if r.Chance(1, 3) {
 			hp = int64(term.Pick(r, []int{1, 5, 20, 100}))
 		}
-		enemies = append(enemies, term.C("DEnemy", term.I(int64(term.Pick(r, []int{1, 10, 50, 80, 90}))), term.S(term.Pick(r, detAttacks)),
+		enemies = append(enemies, term.C("DEnemy", term.I(int64(term.Pick(r, []int{1, 10, 50, 80, 90, 0}))), term.S(term.Pick(r, detAttacks)),
 			term.I(int64(r.Range(1, 3))), term.I(int64(term.Pick(r, []int{0, 50, 100, 400, 2000}))), term.S(term.Pick(r, detDamageTypes)),
 			term.L(weak...), term.I(hp)))
 	}
